@@ -16,7 +16,7 @@ PROOF_FILES = ["Proofs/C12.lean", "Proofs/Lemmas/Determinism.lean"]
 THEOREMS = ["parse_perm", "parse_sorted", "parse_keys", "parse_dup_last_wins", "parse_dup_order_matters",
             "canon_perm", "unique_iff_nodup", "unique_perm", "len_perm", "len_repr", "contains_perm",
             "lookup_perm", "counts_perm", "subset_perm", "sorted_perm", "sorted_is_sort", "keyed_insert_perm",
-            "keyed_insert_not_injective", "hash_sites_ok", "no_preserve_order", "render_pure"]
+            "keyed_insert_not_injective", "hash_sites_ok", "no_preserve_order", "render_pure", "no_hidden_state"]
 HASHSITES = os.path.join(vlib.LEAN, "TypifyModel", "Generated", "HashSites.lean")
 MACRO_DIR = os.path.join(vlib.CACHE, "c12_macro")
 
@@ -322,6 +322,16 @@ def run(ctx):
 
     # ---- documents, variants, settings
     docs = [{"id": rel, "text": text, "fixture": True} for rel, text in fixtures()]
+    import corpus
+    crashing = []
+    for cid, cdoc, _ in corpus.documents():
+        # a document that kills the process (stack overflow: known finding C01-allof-self-ref-overflow) cannot share a
+        # request file with the others; it is tried alone first and left out when the process dies
+        text = json.dumps(cdoc, indent=1)
+        pr = subprocess.run([TVH_RUN], input=json.dumps({"kind": "gen", "schema": text, "settings": {}}) + "\n", capture_output=True, text=True)
+        if pr.returncode != 0: crashing.append(cid); continue
+        docs.append({"id": "corpus:" + cid, "text": text, "fixture": False})
+    if crashing: ctx.notes.append("corpus documents left out because the process dies on them (C01's subject): %s" % crashing)
     for i in range(B["gen_docs"]):
         docs.append({"id": "gen-%d" % i, "text": json.dumps(gen_schema(rng), indent=1), "fixture": False})
     cases = []       # (doc index, settings index, variant index, request line)
